@@ -240,6 +240,23 @@ CLAIMS = {
         design="§7 C16",
         note=TB + "ast.unparse/ast.parse normalise statements before comparison (H_unparse_parse, tested per case).",
     ),
+    "C06": dict(
+        technique="Lean 4 theorems on 'views' (what CPython must see in an emitted artefact, as a function of the description) + differential run against CPython executing every artefact",
+        text=(
+            "Partial by nature: the CPython compiler/exec, inspect, argparse, ast.unparse and black are not modelled. What "
+            "is kernel-checked are properties of Views.classView / sigView / argView, the model of the attribute table, the "
+            "signature and the argparse action table an artefact must exhibit: argView_dests / argView_length / "
+            "classView_names (exactly one attribute / action per parameter, in order, plus return_type), argOpt_default "
+            "(an explicit default reaches the parser with value and type), argOpt_optional_not_required, and Kinds.norm_pres. "
+            "The tie is the interpreter itself: every generated artefact is compiled, executed and inspected "
+            "(class __dict__/__annotations__, inspect.signature, a real ArgumentParser's actions) and CPython's answer must "
+            "equal the view; the predicate additionally checks validity, tree identity through unparse/re-parse (modulo the "
+            "two systematic 3.12 differences named in DESIGN section 2) and through emit.file with and without black, and "
+            "the interface exhibited against expectations computed directly from the description."
+        ),
+        design="§7 C06",
+        note=TB + "Not modelled: CPython compile/exec, inspect, argparse, ast.unparse, black (their behaviour is observed per generated artefact).",
+    ),
 }
 
 PENDING_REASON = "check not built yet in this round (work in progress; see DESIGN.md §10 build order) — not a claim that the technique cannot apply"
